@@ -38,7 +38,7 @@ COMPONENTS = {
 }
 
 KINDS = ['parse_message', 'parse_message', 'parse_segment', 'parse_segment', 'parse_field', 'parse_component',
-         'factory', 'factory', 'build', 'build', 'segment_build', 'segment_build', 'component_add_sub']
+         'factory', 'factory', 'build', 'build', 'segment_build', 'segment_build', 'component_add_sub', 'field_dt']
 
 
 def required_probes(tier):
@@ -59,8 +59,13 @@ def setup():
                     hl7apy.get_default_encoding_chars.__code__})
 
 
-def _flip(rng):
+MESSAGE_ROOTED = ('parse_message', 'build', 'factory', 'component_add_sub')
+
+
+def _flip(rng, kind=None):
     f = [rng.choice(T.VERSIONS), rng.choice([1, 2]), rng.choice([0, 1, 2, 3])]
+    if kind in MESSAGE_ROOTED and rng.random() < 0.3:
+        f[2] = 4
     r = rng.random()
     if r < 0.3:          # single-default flips make the report sharper
         keep = rng.randrange(3)
@@ -75,21 +80,24 @@ def generate(seed, idx, tier):
     for _ in range(rng.choice([1, 1, 2, 3])):
         call = corpus.gen_call(rng, tok, cid='w', kinds=KINDS, invalid_p=0.25)
         plan = {}
+        _k = call['kind']
+        if _k == 'build' and any(st[0] in ('copy_field',) for st in call.get('steps', [])):
+            _k = None      # a copy from a parent-less segment serialises that segment with the defaults
         mode = rng.random()
         if mode < 0.30:
-            plan['before'] = _flip(rng)
+            plan['before'] = _flip(rng, _k)
         elif mode < 0.50:
-            plan['alive'] = {str(rng.randrange(0, 4)): _flip(rng)}
+            plan['alive'] = {str(rng.randrange(0, 4)): _flip(rng, _k)}
             if rng.random() < 0.3:
-                plan['alive'][str(rng.randrange(0, 4))] = _flip(rng)
+                plan['alive'][str(rng.randrange(0, 4))] = _flip(rng, _k)
         elif mode < 0.80:
-            plan['consult'] = {('%.3f' % rng.random()): _flip(rng)}
+            plan['consult'] = {('%.3f' % rng.random()): _flip(rng, _k)}
             if rng.random() < 0.3:
-                plan['consult']['%.3f' % rng.random()] = _flip(rng)
+                plan['consult']['%.3f' % rng.random()] = _flip(rng, _k)
         else:
-            plan['line'] = {('%.4f' % rng.random()): _flip(rng)}
+            plan['line'] = {('%.4f' % rng.random()): _flip(rng, _k)}
         if rng.random() < 0.15 and 'before' not in plan:
-            plan['before'] = _flip(rng)
+            plan['before'] = _flip(rng, _k)
         calls.append({'call': call, 'plan': plan})
     return {'world': 'defaults', 'seed': seed, 'calls': calls}
 
